@@ -617,7 +617,8 @@ impl<T: AsRef<[u8]> + AsMut<[u8]>> Packet<T> {
                 self.set_field(idx, &dst[11..]);
                 idx += 5;
             } else {
-                self.set_dam_field(0b11);
+                // The full 128 bits are carried in-line.
+                self.set_dam_field(0b00);
 
                 self.set_field(idx, &dst);
                 idx += 16;
@@ -850,12 +851,32 @@ impl Repr {
 
     /// Emit a high-level representation into a 6LoWPAN IPHC header.
     pub fn emit<T: AsRef<[u8]> + AsMut<[u8]>>(&self, packet: &mut Packet<T>) {
-        let idx = 2;
+        let mut idx = 2;
 
         packet.set_dispatch_field();
 
-        // FIXME(thvdveld): we don't set anything from the traffic flow.
-        packet.set_tf_field(0b11);
+        // Traffic class and flow label, in the layouts the accessors read them from
+        // (`buffer_len()` accounts for these bytes).
+        match (self.ecn, self.dscp, self.flow_label) {
+            (Some(ecn), Some(dscp), Some(flow_label)) => {
+                packet.set_tf_field(0b00);
+                let fl = flow_label.to_be_bytes();
+                packet.set_field(idx, &[(ecn & 0b1100_0000) | (dscp & 0b11_1111), 0, fl[0], fl[1]]);
+                idx += 4;
+            }
+            (Some(ecn), None, Some(flow_label)) => {
+                packet.set_tf_field(0b01);
+                let fl = flow_label.to_be_bytes();
+                packet.set_field(idx, &[ecn & 0b1100_0000, fl[0], fl[1]]);
+                idx += 3;
+            }
+            (Some(ecn), Some(dscp), None) => {
+                packet.set_tf_field(0b10);
+                packet.set_field(idx, &[(ecn & 0b1100_0000) | (dscp & 0b11_1111)]);
+                idx += 1;
+            }
+            _ => packet.set_tf_field(0b11),
+        }
 
         let idx = packet.set_next_header(self.next_header, idx);
         let idx = packet.set_hop_limit(self.hop_limit, idx);
